@@ -441,6 +441,104 @@ theorem mem_of_mapO {α β : Type} (f : α → Option β) :
         · obtain ⟨b', h1, h2⟩ := mem_of_mapO f r bs' hr a ha'
           exact ⟨b', h1, by simp [h2]⟩
 
+theorem mapE_ok_of_forall {ε α β : Type} (f : α → Except ε β) :
+    ∀ (l : List α), (∀ a ∈ l, ∃ b, f a = .ok b) → ∃ bs, mapE f l = .ok bs
+  | [], _ => ⟨[], rfl⟩
+  | x :: r, h => by
+    obtain ⟨b, hb⟩ := h x (by simp)
+    obtain ⟨bs, hbs⟩ := mapE_ok_of_forall f r (fun a ha => h a (by simp [ha]))
+    exact ⟨b :: bs, by simp [mapE, hb, hbs]⟩
+
+/-- PROGRESS for one signature: when only offered parameters are given, every required one is given, and no parameter is
+    one of the finding classes, the parse succeeds and the call binds -/
+theorem fill_pyBind_ok (asPos : Bool) (sig : Sig) (given : KV)
+    (hd : distinctNames sig = true)
+    (hgiven : ∀ k ∈ given.map (·.1), k ∈ (sig.filter (fun p => !skipped p)).map (·.name))
+    (hreq : ∀ p ∈ sig, isVar p = false → effDefault p = .none → (lookup p.name given).isSome = true)
+    (hpriv : ∀ p ∈ sig, skipped p = true → isVar p = false → p.dflt.isSome = true) :
+    ∃ vals a, fill (parserOfSig asPos sig) given = .ok vals ∧ pyBind sig (topEntries vals) = .ok a := by
+  have hd' : (sig.map (·.name)).Nodup := by simpa [distinctNames] using hd
+  -- the parse
+  have hfillArgs : ∃ vals, mapE (fillArg given) (parserOfSig asPos sig) = .ok vals := by
+    apply mapE_ok_of_forall
+    intro a ha
+    obtain ⟨p, hp, rfl⟩ := List.mem_map.mp ha
+    obtain ⟨hps, hns⟩ := List.mem_filter.mp hp
+    have hns' : skipped p = false := by simpa using hns
+    have hv : isVar p = false := by
+      simp only [skipped, Bool.or_eq_false_iff] at hns'
+      exact hns'.1
+    simp only [fillArg, argOfParam]
+    cases hl : lookup p.name given with
+    | some v => exact ⟨_, rfl⟩
+    | none =>
+      cases hde : effDefault p with
+      | some d => exact ⟨_, rfl⟩
+      | none =>
+        have := hreq p hps hv hde
+        simp [hl] at this
+  obtain ⟨vals, hvals⟩ := hfillArgs
+  have hfill : fill (parserOfSig asPos sig) given = .ok vals := by
+    unfold fill
+    split
+    · rename_i hany
+      exfalso
+      simp only [List.any_eq_true, Bool.not_eq_true'] at hany
+      obtain ⟨e, he, hno⟩ := hany
+      have := hgiven e.1 (List.mem_map.mpr ⟨e, he, rfl⟩)
+      rw [← parser_dests asPos sig] at this
+      obtain ⟨a, ha, had⟩ := List.mem_map.mp this
+      simp only [List.any_eq_false, beq_iff_eq] at hno
+      exact hno a ha had
+    · exact hvals
+  obtain ⟨_, hkeys, _⟩ := fill_ok asPos sig given vals hfill
+  have hvn : (vals.map (·.1)).Nodup := hkeys ▸ nodup_filter_names sig _ hd'
+  refine ⟨vals, ?_⟩
+  -- the call
+  have hacc : (!hasVarKw sig && (topEntries vals).any (fun e => !acceptsKw sig e.1)) = false := by
+    simp only [Bool.and_eq_false_imp, Bool.not_eq_true', List.any_eq_false, Bool.not_eq_true, Bool.not_eq_false']
+    intro _ e he
+    simp only [topEntries, List.mem_map] at he
+    obtain ⟨x, hx, rfl⟩ := he
+    have : x.1 ∈ vals.map (·.1) := List.mem_map.mpr ⟨x, hx, rfl⟩
+    rw [hkeys] at this
+    obtain ⟨p, hp, hpn⟩ := List.mem_map.mp this
+    obtain ⟨hps, hns⟩ := List.mem_filter.mp hp
+    have hns' : skipped p = false := by simpa using hns
+    have hv : isVar p = false := by
+      simp only [skipped, Bool.or_eq_false_iff] at hns'
+      exact hns'.1
+    simp only [acceptsKw]
+    intro hfalse
+    simp only [List.any_eq_false] at hfalse
+    have := hfalse p hps
+    simp [hv, hpn] at this
+  have hbinds : ∃ a, mapE (bindOne (topEntries vals)) (sig.filter (fun p => !isVar p)) = .ok a := by
+    apply mapE_ok_of_forall
+    intro p hp
+    obtain ⟨hps, hnv⟩ := List.mem_filter.mp hp
+    have hv : isVar p = false := by simpa using hnv
+    simp only [bindOne, lookup_top]
+    cases hl : lookup p.name vals with
+    | some v => exact ⟨_, rfl⟩
+    | none =>
+      cases hdf : p.dflt with
+      | some d => exact ⟨_, rfl⟩
+      | none =>
+        exfalso
+        by_cases hs : skipped p = true
+        · have := hpriv p hps hs hv
+          simp [hdf] at this
+        · have hmem : p.name ∈ vals.map (·.1) := by
+            rw [hkeys]
+            exact List.mem_map.mpr ⟨p, List.mem_filter.mpr ⟨hps, by simpa using hs⟩, rfl⟩
+          obtain ⟨e, he, hek⟩ := List.mem_map.mp hmem
+          have := lookup_of_mem_nodup e.1 e.2 vals hvn he
+          rw [hek, hl] at this
+          cases this
+  obtain ⟨a, ha⟩ := hbinds
+  exact ⟨a, hfill, by simp only [pyBind, hacc, Bool.false_eq_true, if_false, ha]⟩
+
 /-- a method's own reserved name: `subcommand_cfg.pop("config", None)` -/
 def noConfigParam (sig : Sig) : Bool := sig.all (fun p => p.name != "config")
 
@@ -891,7 +989,7 @@ theorem dispatch (body : Body) (asPos : Bool) (comps : Comps) (path : Key) (g : 
     obtain ⟨t, ht⟩ := (isPrefixOf_iff_append _ _).mp hpre
     have h1 : (s0 :: rest).isPrefixOf e.1 = true :=
       (isPrefixOf_iff_append _ _).mpr ⟨[m] ++ t, by rw [ht]; simp⟩
-    have h2 : (s0 :: rest).length < e.1.length := by rw [ht]; simp; omega
+    have h2 : (s0 :: rest).length < e.1.length := by rw [ht]; simp
     have := hpf e he h1
     simp only [decide_eq_false_iff_not] at this
     exact this h2
